@@ -28,7 +28,7 @@ def c09(tier):
         raise vlib.Inconclusive("CallMap failed:\n" + r2.out[-2000:])
     runs.append({"module": "CallMap", "vectors_emitted": r2.nprinted})
     try:
-        doc = harness(["stack", "-vectors", vp, "-rounds", "50" if q else "400"], timeout=2400)
+        doc = harness(["stack", "-vectors", vp, "-rounds", "50" if q else "400"] + ([] if q else ["-logging"]), timeout=2400)
         hv = doc.get("violations") or []
         if any(v["tag"] == "harness" for v in hv):
             raise vlib.Inconclusive("stack harness problem: %s" % [v for v in hv if v["tag"] == "harness"][0])
